@@ -506,9 +506,48 @@ def nontrivial(case):
     return False
 
 
+def refusals(ctx):
+    """records without a counterpart in the other version: refused or dropped, never written as text that the other version
+    does not accept"""
+    g = impl.gfapy()
+    from .. import grammar as GR
+    docs = [
+        # overlaps with operations that GFA2 does not have
+        ('gfa1', ['S\ta\tACGTACGTAC', 'S\tb\tACGTACGTAC', 'L\ta\t+\tb\t-\t2M2X', 'L\tb\t+\ta\t+\t3M']),
+        ('gfa1', ['S\ta\tACGTACGTAC', 'S\tb\tACGTACGTAC', 'C\ta\t+\tb\t+\t1\t3=1S', 'L\tb\t+\ta\t+\t3M']),
+        ('gfa1', ['S\ta\tACGTACGTAC', 'S\tb\tACGTACGTAC', 'L\ta\t+\tb\t-\t1H2M1N']),
+        # a trace and an internal alignment have no GFA1 form
+        ('gfa2', ['S\ta\t10\t*', 'S\tb\t10\t*', 'E\te\ta+\tb+\t7\t10$\t0\t3\t1,2', 'E\ti\ta+\tb-\t2\t5\t1\t3\t*', 'G\tg\ta+\tb-\t3\t*',
+                  'F\ta\tr+\t0\t3\t0\t3\t*', 'U\tu\ta b']),
+    ]
+    for ver, doc in docs:
+        other = 'gfa2' if ver == 'gfa1' else 'gfa1'
+        for vl in (0, 1, 3):
+            G = g.Gfa(doc, vlevel=vl)
+            calls = [('Gfa.to_%s()' % other, lambda: str(getattr(G, 'to_' + other)())),
+                     ('Gfa.to_%s_s()' % other, lambda: getattr(G, 'to_%s_s' % other)())]
+            for l in G.lines:
+                if l.record_type in 'LCEGFU':
+                    calls.append(('%s .to_%s_s()' % (str(l)[:30], other), (lambda l=l: getattr(l, 'to_%s_s' % other)())))
+            for label, f in calls:
+                r = impl.outcome(f)
+                case = {'kind': 'refusal', 'doc': doc, 'version': ver, 'vlevel': vl, 'call': label}
+                ctx.count(case, True)
+                if r[0] != 'ok':
+                    if r[1][0] != 'gfapy':
+                        ctx.violation('failing-input', '%s raised a foreign exception' % label, case, 'gfapy.Error or valid text', impl.outcome_name(r))
+                    continue
+                bad = [t for t in str(r[1]).split('\n') if t and not GR.valid_line(t, other)[0]]
+                if bad:
+                    ctx.violation('failing-input', '%s wrote a line that is not valid %s instead of refusing or dropping the record'
+                                  % (label, other.upper()), case, 'gfapy.Error or valid text', bad[0],
+                                  python="import gfapy\ng=gfapy.Gfa(%r,vlevel=%d)\nprint(g.to_%s_s())" % (doc, vl, other))
+
+
 def run(ctx, deep, model_ok):
     g = impl.gfapy()
     rng = ctx.rng
+    refusals(ctx)
     n = 600 if deep else 120
     L2E, C2E, E2G, metas = [], [], [], {'l2e': [], 'c2e': [], 'e2g': []}
     for i in range(n):
